@@ -87,7 +87,8 @@ def main(argv=None):
         for r in pool.imap_unordered(_work, jobs, chunksize=1):
             results.append(r)
             if a.v:
-                print(f"  .. {r['obligation']}: {r['status']} ({r.get('wall_s', 0):.1f}s)", flush=True)
+                slow = {k: v.get("max_query_s") for k, v in r.get("clauses", {}).items() if v.get("max_query_s", 0) > 1.0}
+                print(f"  .. {r['obligation']}: {r['status']} ({r.get('wall_s', 0):.1f}s) slow={slow}", flush=True)
     order = {o.name: i for i, o in enumerate(obs)}
     results.sort(key=lambda r: order.get(r["obligation"], 0))
     return report(prop, mod, a.tier, seed, obs, results, known, t0, write=not (a.no_evidence or a.only))
